@@ -109,6 +109,7 @@ func cmdConc(args []string) int {
 	_ = stalled
 
 	var callID atomic.Int64
+	var closingNow atomic.Bool
 	call := func(op string, f func() (bool, map[string]any), extra map[string]any) {
 		id := callID.Add(1)
 		ev := map[string]any{"e": "call", "id": id, "op": op}
@@ -240,9 +241,9 @@ func cmdConc(args []string) int {
 				name := fmt.Sprintf("tmp%d", i)
 				call("VCreate", func() (bool, map[string]any) {
 					return e.VCreate(name, distance.Cosine, 0, 0, distance.Float32, "", nil, nil, nil) == nil, nil
-				}, nil)
+				}, map[string]any{"ix": name})
 				call("VAdd", func() (bool, map[string]any) { return e.VAdd(name, "x", []float32{1, 2, 3}, nil) == nil, nil }, map[string]any{"vids": []string{}})
-				call("VDeleteIndex", func() (bool, map[string]any) { return e.VDeleteIndex(name) == nil, nil }, nil)
+				call("VDeleteIndex", func() (bool, map[string]any) { return e.VDeleteIndex(name) == nil, nil }, map[string]any{"ix": name})
 			case 5:
 				call("GraphVacuum", func() (bool, map[string]any) { e.RunGraphVacuum(); return true, nil }, nil)
 			case 6:
@@ -263,11 +264,62 @@ func cmdConc(args []string) int {
 			name := fmt.Sprintf("churn%d", i)
 			call("VCreate", func() (bool, map[string]any) {
 				return e.VCreate(name, distance.Euclidean, 0, 0, distance.Float32, "", nil, nil, nil) == nil, nil
-			}, nil)
+			}, map[string]any{"ix": name})
 			call("VAdd", func() (bool, map[string]any) {
 				return e.VAdd(name, "y", []float32{1, 2}, map[string]any{"content": "churn"}) == nil, nil
 			}, map[string]any{"vids": []string{}})
-			call("VDeleteIndex", func() (bool, map[string]any) { return e.VDeleteIndex(name) == nil, nil }, nil)
+			call("VDeleteIndex", func() (bool, map[string]any) { return e.VDeleteIndex(name) == nil, nil }, map[string]any{"ix": name})
+		}
+	}()
+
+	// several creators of ONE name at the same time: exactly one VCreate may succeed until the index is dropped again
+	// (Trace_Conc: a second success needs a VDeleteIndex of that name in between)
+	for g := 0; g < 3; g++ {
+		wg.Add(1)
+		go func(g int) {
+			defer wg.Done()
+			for i := 0; i < 10; i++ {
+				name := fmt.Sprintf("race%d", i)
+				call("VCreate", func() (bool, map[string]any) {
+					return e.VCreate(name, distance.Euclidean, 0, 0, distance.Float32, "", nil, nil, nil) == nil, nil
+				}, map[string]any{"ix": name})
+				jitter()
+			}
+		}(g)
+	}
+
+	// one edge linked and unlinked at the same time by two goroutines, round after round: whatever order the two calls
+	// take effect in, the forward and the reverse view of the edge agree once both have returned
+	wg.Add(1)
+	go func() {
+		defer wg.Done()
+		for i := 0; i < 150; i++ {
+			a, b := fmt.Sprintf("ha%d", i), fmt.Sprintf("hb%d", i)
+			if e.VLink(ix, a, b, "half", "", 1, nil) != nil {
+				return // the engine is closing
+			}
+			var pair sync.WaitGroup
+			pair.Add(2)
+			go func() { defer pair.Done(); e.VLink(ix, a, b, "half", "", 2, nil) }()
+			go func() { defer pair.Done(); e.VUnlink(ix, a, b, "half", "", i%2 == 0) }()
+			pair.Wait()
+			links, _ := e.VGetLinks(ix, a, "half")
+			inc, _ := e.VGetIncoming(ix, b, "half")
+			fwd, rev := false, false
+			for _, x := range links {
+				fwd = fwd || x == b
+			}
+			for _, x := range inc {
+				rev = rev || x == a
+			}
+			select {
+			case <-stop:
+			default:
+			}
+			if closingNow.Load() {
+				return // reads of a closing engine are not comparable
+			}
+			emit(map[string]any{"e": "edgeview", "s": a, "t": b, "fwd": fwd, "rev": rev})
 		}
 	}()
 
@@ -304,6 +356,7 @@ func cmdConc(args []string) int {
 			emit(map[string]any{"e": "final", "item": it, "count": cnt, "keys": keys})
 		}
 	}
+	closingNow.Store(true)
 	closeRet := make(chan error, 1)
 	go func() { closeRet <- e.Close() }()
 	select {
